@@ -324,6 +324,7 @@ func (s *State) makeEqual(al, bl []*cmd) {
 		b.ready = true
 		s.diffCmds(a.sub, b.sub, byParsedCmd)
 		changedRef := false
+		changedCertMap := false
 		for i, aName := range a.ref {
 			prefix := a.typ.ref[i]
 			bName := b.ref[i]
@@ -340,10 +341,24 @@ func (s *State) makeEqual(al, bl []*cmd) {
 			}
 			if refName != aName {
 				changedRef = true
+				if prefix == "crypto ca certificate map" {
+					changedCertMap = true
+				}
 			}
 		}
 		if changedRef {
 			if strings.Contains(b.parsed, "$NAME $SEQ set ikev") {
+				s.addChange("no " + a.orig)
+			} else if changedCertMap {
+				// Rules of tunnel-group-map and certificate-group-map
+				// are identified by name of certificate map and index.
+				// A rule referencing some other certificate map
+				// wouldn't replace the old rule.
+				if sup := a.subCmdOf; sup != nil {
+					s.setCmdConfMode(sup.orig)
+				} else {
+					s.subCmdOf = ""
+				}
 				s.addChange("no " + a.orig)
 			}
 			s.addCmd(b)
